@@ -77,7 +77,7 @@ def run(ctx):
     ctx.cover(sample={"history": cases[len(cases) // 2]["h"], "expected_avg": cases[len(cases) // 2]["exp"]["avg"]})
     # ---- T
     dom = 20
-    n = 1500 if thorough else 300
+    n = 5000 if thorough else 300
     tr = ctx.scratch + "/agg_trace.ndjson"
     ctx.driver("agg-trace", ["-out", tr, "-n", n, "-len", 80 if thorough else 40, "-dom", dom, "-seed", ctx.seed])
     events = ctx.read_ndjson(tr)
